@@ -49,9 +49,22 @@ def run_shard(shard, tier, seed):
 
 # ---------------------------------------------------------------------------------------------------
 
+class Unreadable(Exception):
+    pass
+
+
+def _reread(text, kind):
+    from chython import smiles
+    try:
+        x = smiles(text)
+        molgen.normalise(x)
+    except Exception as e:
+        raise Unreadable(f'{kind} spelling {text!r} cannot be read back into normal state: {type(e).__name__}: {e}')
+    return x
+
+
 def describe(kind, sd, m, mk, rec):
     """returns (molecule in normal state, mapping old->new or None) or None when the description is not applicable"""
-    from chython import smiles
     if kind == 'rebuild':
         x, mp, left = molgen.rebuild(mk, sd)
         if left:
@@ -65,16 +78,12 @@ def describe(kind, sd, m, mk, rec):
     if kind.startswith('rand:'):
         _random.seed(sd)
         text = format(m, kind[5:])
-        x = smiles(text)
-        molgen.normalise(x)
-        return x, None
+        return _reread(text, kind), None
     if kind == 'rdkit':
         text = rdkit_spelling(mk, sd, rec)
         if text is None:
             return None
-        x = smiles(text)
-        molgen.normalise(x)
-        return x, None
+        return _reread(text, kind), None
     if kind == 'ref':
         try:
             from ..oracles import smiles_ref
@@ -84,9 +93,7 @@ def describe(kind, sd, m, mk, rec):
         if r is None:
             rec.count('ref-writer-not-applicable')
             return None
-        x = smiles(r[0])
-        molgen.normalise(x)
-        return x, None
+        return _reread(r[0], kind), None
     raise HarnessError(kind)
 
 
@@ -161,6 +168,8 @@ def domain(m):
             return 'known-odd'
         if wl.annulene_stereo(m):
             return 'known-annulene'
+        if wl.radialene_stereo(m) or wl.ring_diene_stereo(m):
+            return 'known-radialene'
         if wl.local_swap_ok(col, adj):
             return 'known-c'
     except TimeoutError:
@@ -205,7 +214,13 @@ def check_case(case, rec):
     dom = None
     snap = molgen.snapshot(m)
     for kind, sd in case['desc']:
-        r = describe(kind, sd, m, mk, rec)
+        try:
+            r = describe(kind, sd, m, mk, rec)
+        except Unreadable as e:
+            rec.fail('canonical-reread', f'{s0!r}: {e}',
+                     sig='aromatic-P-ambiguity' if wl.aromatic_p_ambiguity(m) else
+                     ('thiele-mcb-not-unique' if not mcb_unique(m) else f'in-domain:{kind.split(":")[0]}'))
+            continue
         if r is None:
             continue
         x, mp = r
@@ -244,7 +259,8 @@ def check_case(case, rec):
             if dom in ('gap-a', 'gap-b', 'budget'):
                 rec.sample(f'excluded-{dom}', s0)
                 continue
-            sig = {'known-c': 'swap-test-fails', 'known-annulene': 'annulene-stereo', 'known-odd': 'odd-label-orbit'}.get(
+            sig = {'known-c': 'swap-test-fails', 'known-annulene': 'annulene-stereo', 'known-odd': 'odd-label-orbit',
+                   'known-radialene': 'ring-conjugated-stereo'}.get(
                 dom, f'in-domain:{kind.split(":")[0]}')
             rec.fail('canonical-' + bad[0], bad[1], sig=sig)
     if labelled or symmetric or multi:
